@@ -606,6 +606,9 @@ func (w *authWorld) authAdmin(r *simkit.Rand) {
 	now := time.Now()
 	run.Probe("c09.admin_request")
 	if !pa.enabled {
+		if strings.HasPrefix(req.URL.Path, "/metrics") || strings.HasPrefix(req.URL.Path, "/debug/") {
+			req.URL.Path = "/status/upstream/endpoints" // see below: process-dependent answers
+		}
 		resp, err := w.hc.Do(req)
 		if err == nil {
 			io.Copy(io.Discard, resp.Body)
@@ -621,6 +624,13 @@ func (w *authWorld) authAdmin(r *simkit.Rand) {
 	bad := (&tokenSpec{family: t.family, keyIdx: 1, aud: pa.audience, iss: pa.iss}).sign(now)
 	presented, form := headerFor(req.Header, tok, t.form, bad)
 	accept := presented && t.valid(pa)
+	if accept && (strings.HasPrefix(req.URL.Path, "/metrics") || strings.HasPrefix(req.URL.Path, "/debug/")) {
+		// the answers of these routes carry figures of the Go runtime that differ from
+		// process to process, and with their size the schedule: they are asked for with
+		// tokens that must be refused only (which is what the property is about)
+		req.URL.Path = "/status/upstream/endpoints"
+		path = req.URL.Path + "?" + req.URL.RawQuery
+	}
 	resp, err := w.hc.Do(req)
 	if err != nil {
 		return
